@@ -91,12 +91,9 @@ Section Driver.
     | StInfeasible =>
       match f_infeas o with
       | None =>
-        (* double stage: goto MPF_PRECISION; mpf stage: EGcallD -> error *)
-        match lvl with
-        | O => inl {| st_status := StInfeasible; st_last_status := StInfeasible; st_last_iter := f_iter o;
-                      st_basis := st_basis st |}
-        | S _ => inr {| r_rval := true; r_status := StInfeasible; r_sol := None; r_y := None; r_exit := ExitError lvl |}
-        end
+        (* no certificate array: double stage goto MPF_PRECISION, mpf stage goto NEXT_PRECISION *)
+        inl {| st_status := StInfeasible; st_last_status := StInfeasible; st_last_iter := f_iter o;
+               st_basis := st_basis st |}
       | Some y =>
         if itest y
         then inr {| r_rval := false; r_status := StInfeasible; r_sol := None; r_y := Some y; r_exit := ExitTest lvl |}
